@@ -49,6 +49,23 @@ func main() {
 	overlay := map[string]string{}
 	sites := 0
 	n := 0
+	// Loop-variable semantics follow the repository's go.mod: before go 1.22 a range statement has ONE key and ONE value
+	// variable for the whole loop (so `&v` and closures over v alias across iterations). The rewrite must not turn the
+	// value into a per-iteration variable, or it would hide exactly that class of defect: for such modules the value
+	// variable is declared once in front of the loop and assigned in every iteration.
+	sharedLoopVars := false
+	if gm, err := os.ReadFile(filepath.Join(*repo, "go.mod")); err == nil {
+		for _, l := range strings.Split(string(gm), "\n") {
+			f := strings.Fields(l)
+			if len(f) == 2 && f[0] == "go" {
+				var maj, min int
+				fmt.Sscanf(f[1], "%d.%d", &maj, &min)
+				sharedLoopVars = maj == 1 && min < 22
+			}
+		}
+	}
+	hoisted := 0
+	genBlocks := map[*ast.BlockStmt]bool{}
 	for _, p := range pkgs {
 		if len(p.Errors) > 0 {
 			fmt.Fprintln(os.Stderr, "type errors in", p.PkgPath, p.Errors)
@@ -63,6 +80,15 @@ func main() {
 			changed := false
 			rel, _ := filepath.Rel(*repo, fname)
 			astutil.Apply(f, nil, func(c *astutil.Cursor) bool {
+				if ls, ok := c.Node().(*ast.LabeledStmt); ok {
+					// a labelled map range that was wrapped in a block: the label goes back onto the loop itself
+					if blk, ok := ls.Stmt.(*ast.BlockStmt); ok && genBlocks[blk] {
+						last := len(blk.List) - 1
+						blk.List[last] = &ast.LabeledStmt{Label: ls.Label, Stmt: blk.List[last]}
+						c.Replace(blk)
+					}
+					return true
+				}
 				rs, ok := c.Node().(*ast.RangeStmt)
 				if !ok {
 					return true
@@ -78,11 +104,12 @@ func main() {
 				site := fmt.Sprintf("%s:%d", rel, p.Fset.Position(rs.Pos()).Line)
 				mexpr := rs.X
 				var pre []ast.Stmt
-				if !simple(rs.X) {
-					if _, labeled := c.Parent().(*ast.LabeledStmt); labeled {
-						fmt.Fprintln(os.Stderr, "unsupported: labeled map range over non-simple expr at", site)
-						os.Exit(2)
-					}
+				isBlank0 := func(e ast.Expr) bool {
+					id, ok := e.(*ast.Ident)
+					return e == nil || (ok && id.Name == "_")
+				}
+				needHoist := sharedLoopVars && rs.Tok == token.DEFINE && !isBlank0(rs.Value)
+				if !simple(rs.X) || needHoist {
 					mid := ast.NewIdent(fmt.Sprintf("verifM%d", n))
 					pre = append(pre, &ast.AssignStmt{Lhs: []ast.Expr{mid}, Tok: token.DEFINE, Rhs: []ast.Expr{rs.X}})
 					mexpr = mid
@@ -104,16 +131,25 @@ func main() {
 				}
 				// value fetch
 				var vlhs ast.Expr = ast.NewIdent("_")
+				hoist := false
 				if !isBlank(rs.Value) {
-					if rs.Tok == token.DEFINE {
+					if rs.Tok == token.DEFINE && !sharedLoopVars {
 						vlhs = rs.Value
 					} else {
 						vlhs = vid
+						hoist = rs.Tok == token.DEFINE
 					}
 				}
 				head = append(head, &ast.AssignStmt{Lhs: []ast.Expr{vlhs, okid}, Tok: token.DEFINE,
 					Rhs: []ast.Expr{&ast.IndexExpr{X: mexpr, Index: loopKey}}})
 				head = append(head, &ast.IfStmt{Cond: &ast.UnaryExpr{Op: token.NOT, X: okid}, Body: &ast.BlockStmt{List: []ast.Stmt{&ast.BranchStmt{Tok: token.CONTINUE}}}})
+				if hoist {
+					// v := verifrt.ZeroV(m) in front of the loop; v = verifVn in every iteration
+					pre = append(pre, &ast.AssignStmt{Lhs: []ast.Expr{rs.Value}, Tok: token.DEFINE,
+						Rhs: []ast.Expr{&ast.CallExpr{Fun: &ast.SelectorExpr{X: ast.NewIdent("verifrt"), Sel: ast.NewIdent("ZeroV")}, Args: []ast.Expr{mexpr}}}})
+					head = append(head, &ast.AssignStmt{Lhs: []ast.Expr{rs.Value}, Tok: token.ASSIGN, Rhs: []ast.Expr{vid}})
+					hoisted++
+				}
 				if rs.Tok == token.ASSIGN {
 					if !isBlank(rs.Key) {
 						head = append(head, &ast.AssignStmt{Lhs: []ast.Expr{rs.Key}, Tok: token.ASSIGN, Rhs: []ast.Expr{kid}})
@@ -122,13 +158,17 @@ func main() {
 						head = append(head, &ast.AssignStmt{Lhs: []ast.Expr{rs.Value}, Tok: token.ASSIGN, Rhs: []ast.Expr{vid}})
 					}
 				}
-				body := &ast.BlockStmt{List: append(head, rs.Body.List...)}
+				// the original body keeps a block of its own: a `v := v` in it (the usual cure for a shared loop variable)
+				// must open a new scope below the variables the head declares
+				body := &ast.BlockStmt{List: append(head, &ast.BlockStmt{List: rs.Body.List})}
 				newFor := &ast.RangeStmt{Key: ast.NewIdent("_"), Value: loopKey, Tok: token.DEFINE,
 					X: &ast.CallExpr{Fun: &ast.SelectorExpr{X: ast.NewIdent("verifrt"), Sel: ast.NewIdent("Keys")},
 						Args: []ast.Expr{mexpr, &ast.BasicLit{Kind: token.STRING, Value: fmt.Sprintf("%q", site)}}},
 					Body: body}
 				if len(pre) > 0 {
-					c.Replace(&ast.BlockStmt{List: append(pre, newFor)})
+					blk := &ast.BlockStmt{List: append(pre, newFor)}
+					genBlocks[blk] = true
+					c.Replace(blk)
 				} else {
 					c.Replace(newFor)
 				}
@@ -196,5 +236,5 @@ func main() {
 	}
 	b, _ := json.MarshalIndent(map[string]any{"Replace": overlay}, "", " ")
 	os.WriteFile(filepath.Join(*out, "overlay.json"), b, 0644)
-	fmt.Printf("detmap: rewrote %d map ranges in %d files\n", sites, len(overlay))
+	fmt.Printf("detmap: rewrote %d map ranges in %d files (%d value variables kept loop-wide: go.mod < 1.22)\n", sites, len(overlay), hoisted)
 }
